@@ -130,6 +130,7 @@ class Project(object):
         self.crlf = {rel for rel in sorted(self.files) if ch.chance("crlf." + rel, 0.06)}
         # two kinds may live in one file: the class file is then also named as a file of the function kind
         self.shared = ch.chance("shared", 0.1) and "." not in self.names["function"]
+        self.shared_truth = focus == "C10" and ch.chance("shared_truth", 0.06)
 
     def desc(self):
         return self.versions[self.cur]
@@ -161,6 +162,10 @@ def sync_op(proj, ch, label, truth=None, kinds=None, via=None, avoid_known=True)
     #  to modify it, which the property does not speak about)
     if getattr(proj, "shared", False) and "function" in targets and "class" in targets and truth == "argparse_function":
         targets["function"]["files"] = targets["function"]["files"] + [proj.by_kind["class"][0]]
+    # one module holds the function that is the truth *and* is where the class is to live: the request does ask for that file
+    # to change (R2 has no opinion then), but what sync reports about it must still be true (R1)
+    if getattr(proj, "shared_truth", False) and truth == "function" and "class" in targets and "." not in proj.names["function"]:
+        targets["class"]["files"] = targets["class"]["files"] + [proj.by_kind["function"][0]]
     return {"op": "sync", "truth": truth, "via": via or ch.weighted(label + ".via", [("cli", 0.6), ("api", 0.4)]), "targets": targets}
 
 
